@@ -261,7 +261,7 @@ const preludeText = `
 (declare-fun sat (Str Int) Int)
 (declare-const str_empty Str)
 (declare-const flt_zero Flt)
-(assert (forall ((s Str)) (! (>= (slen s) 0) :pattern ((slen s)))))
+(assert (forall ((s Str)) (! (and (>= (slen s) 0) (<= (slen s) 281474976710656)) :pattern ((slen s)))))
 (assert (forall ((s Str) (i Int)) (! (and (<= 0 (sat s i)) (< (sat s i) 256)) :pattern ((sat s i)))))
 (assert (forall ((s Str)) (! (=> (= (slen s) 0) (= s str_empty)) :pattern ((slen s)))))
 (assert (= (slen str_empty) 0))
